@@ -11,6 +11,14 @@ fn paren(s: &str) -> String {
     }
 }
 
+pub fn strip_parens(e: &Expr) -> &Expr {
+    match e {
+        Expr::Paren(p) => strip_parens(&p.expr),
+        Expr::Group(p) => strip_parens(&p.expr),
+        _ => e,
+    }
+}
+
 pub fn app(f: &str, args: &[String]) -> String {
     if f.is_empty() && args.len() == 1 {
         // newtype over its only field
@@ -43,6 +51,8 @@ impl<'a> Tr<'a> {
                     Ok(Val { s: lit(n), ty })
                 }
                 Lit::Bool(b) => Ok(Val { s: if b.value { "true".into() } else { "false".into() }, ty: Ty::Bool }),
+                // a `char` is its code point (a u32 whose values are the scalar values)
+                Lit::Char(c) => Ok(Val { s: lit(c.value() as i128), ty: Ty::int(IntTy::U32) }),
                 _ => Err(unsupported(e, "literal that is not an integer or bool")),
             },
             Expr::Paren(p) => self.pure(&p.expr, env, hint),
@@ -90,6 +100,9 @@ impl<'a> Tr<'a> {
             Expr::Cast(c) => {
                 let target = self.ty(&c.ty)?;
                 let v = self.pure(&c.expr, env, None)?;
+                if matches!(v.ty, Ty::Int(None)) && !matches!(strip_parens(&c.expr), Expr::Lit(_) | Expr::Unary(_)) {
+                    return Err(unsupported(e, "cast of an integer whose type is not known (a local initialised with an unsuffixed literal): annotate its type"));
+                }
                 match (&v.ty, &target) {
                     (Ty::Int(f), Ty::Int(Some(t))) => {
                         let f = f.unwrap_or(IntTy::I32);
@@ -145,6 +158,39 @@ impl<'a> Tr<'a> {
                     ty: Ty::Tuple(vs.into_iter().map(|v| v.ty).collect()),
                 })
             }
+            Expr::Repeat(r) => {
+                // `[e; N]` with a literal N and a literal e: the N-tuple
+                let n = match &*r.len {
+                    Expr::Lit(ExprLit { lit: Lit::Int(i), .. }) => i.base10_parse::<usize>().map_err(|x| unsupported(e, &x.to_string()))?,
+                    _ => return Err(unsupported(e, "array repeat expression whose length is not a literal")),
+                };
+                if !(2..=8).contains(&n) || !matches!(strip_parens(&r.expr), Expr::Lit(_)) {
+                    return Err(unsupported(e, "array repeat expression (only `[literal; 2..8]`)"));
+                }
+                let eh = match hint {
+                    Some(Ty::Tuple(ts)) if ts.len() == n => Some(ts[0].clone()),
+                    _ => None,
+                };
+                let v = self.pure(&r.expr, env, eh.as_ref())?;
+                Ok(Val { s: format!("({})", vec![v.s.clone(); n].join(", ")), ty: Ty::Tuple(vec![v.ty; n]) })
+            }
+            Expr::Index(ix) if matches!(self.pure(&ix.expr, env, None).map(|b| b.ty), Ok(Ty::Slice(_))) => {
+                // `s[i]` on a slice of integers (Rust panics out of range: 0 here)
+                let b = self.pure(&ix.expr, env, None)?;
+                let elem = match &b.ty {
+                    Ty::Slice(t) => (**t).clone(),
+                    _ => unreachable!(),
+                };
+                let us = Ty::int(IntTy::Usize);
+                let i = self.pure(&ix.index, env, Some(&us))?;
+                join(&i.ty, &us).map_err(|m| unsupported(e, &m))?;
+                match &elem {
+                    t if t.is_int() => Ok(Val { s: format!("(Casts.slice_idx {} {})", b.s, i.s), ty: elem }),
+                    Ty::Option(_) => Ok(Val { s: format!("(Casts.slice_nth None {} {})", b.s, i.s), ty: elem }),
+                    Ty::Bool => Ok(Val { s: format!("(Casts.slice_nth false {} {})", b.s, i.s), ty: elem }),
+                    _ => Err(unsupported(e, "indexing a slice whose elements are not integers, bool or Option")),
+                }
+            }
             Expr::Index(ix) => {
                 let b = self.pure(&ix.expr, env, None)?;
                 match &*ix.index {
@@ -185,7 +231,8 @@ impl<'a> Tr<'a> {
 
     pub fn pure_via_k(&mut self, e: &Expr, env: &Env, hint: Option<&Ty>) -> R<Val> {
         let eff = self.effects_expr(e);
-        if eff.ret || !eff.assigned.is_empty() {
+        // assignments to variables declared inside `e` itself (names unknown outside) stay inside
+        if eff.ret || eff.assigned.iter().any(|n| n.starts_with('<') || env.get(n).is_some()) {
             return Err(unsupported(e, &format!("{} with control flow / assignments in an operand position that is not hoisted", kind_of(e))));
         }
         let cell: std::cell::RefCell<Option<Ty>> = std::cell::RefCell::new(None);
@@ -242,7 +289,7 @@ impl<'a> Tr<'a> {
         let need = |what: &str| -> R<IntTy> {
             match ty {
                 Ty::Int(Some(t)) => Ok(*t),
-                _ => Err(unsupported(at, &format!("cannot infer the integer type of the operands of `{}` (needed to choose quot/div); annotate a type", what))),
+                _ => Err(unsupported(at, &format!("cannot infer the integer type of the operands of `{}` (its Coq meaning depends on signedness or width); annotate a type", what))),
             }
         };
         Ok(match op {
@@ -266,7 +313,8 @@ impl<'a> Tr<'a> {
             BinOp::BitAnd(_) | BinOp::BitAndAssign(_) => format!("(Z.land {} {})", l.s, r.s),
             BinOp::BitOr(_) | BinOp::BitOrAssign(_) => format!("(Z.lor {} {})", l.s, r.s),
             BinOp::BitXor(_) | BinOp::BitXorAssign(_) => format!("(Z.lxor {} {})", l.s, r.s),
-            BinOp::Shl(_) | BinOp::ShlAssign(_) => format!("(Z.shiftl {} {})", l.s, r.s),
+            // Rust drops the bits shifted out of the type silently (no overflow check on the value): truncate like Rust
+            BinOp::Shl(_) | BinOp::ShlAssign(_) => format!("(Casts.shl_{} {} {})", need("<<")?.name(), l.s, r.s),
             BinOp::Shr(_) | BinOp::ShrAssign(_) => format!("(Z.shiftr {} {})", l.s, r.s),
             _ => return Err(unsupported(at, "binary operator on integers")),
         })
@@ -423,12 +471,25 @@ impl<'a> Tr<'a> {
 
     pub fn path_expr(&mut self, p: &ExprPath, env: &Env, hint: Option<&Ty>) -> R<Val> {
         let at = &Expr::Path(p.clone());
-        if p.qself.is_some() {
-            return Err(unsupported(at, "qualified path `<T as Trait>::..`"));
+        let mut segs: Vec<String> = p.path.segments.iter().map(|s| s.ident.to_string()).collect();
+        if let Some(q) = &p.qself {
+            // `<Self as Trait>::ITEM` is `Self::ITEM` (the trait only disambiguates)
+            let is_self = matches!(&*q.ty, Type::Path(tp) if tp.qself.is_none() && tp.path.is_ident("Self"));
+            if !is_self || q.position == 0 || q.position >= segs.len() {
+                return Err(unsupported(at, "qualified path `<T as Trait>::..` (only `<Self as Trait>::ITEM`)"));
+            }
+            let mut s2 = vec!["Self".to_string()];
+            s2.extend(segs[q.position..].iter().cloned());
+            segs = s2;
         }
-        let segs: Vec<String> = p.path.segments.iter().map(|s| s.ident.to_string()).collect();
-        if segs.len() >= 2 && self.generic_tys.contains(&segs[0]) {
-            return match env.get(&segs.join("::")) {
+        if segs.len() == 3 && segs[0] == "Self" {
+            // `Self::Assoc::MAX` where `type Assoc = <integer type>;`
+            if let Some(t) = self.t.assoc_int(&self.cur_file, self.self_ty.as_deref(), &segs[1]) {
+                segs = vec![t.name().to_string(), segs[2].clone()];
+            }
+        }
+        if segs.len() >= 2 && p.qself.is_none() && self.generic_tys.contains(&segs[0]) {
+            return match env.get(&generic_item_key(&p.path)) {
                 Some(v) => Ok(Val { s: v.coq.clone(), ty: v.ty.clone() }),
                 None => Err(unsupported(at, &format!("associated item `{}` of a generic parameter", segs.join("::")))),
             };
@@ -456,7 +517,11 @@ impl<'a> Tr<'a> {
                     }
                 }
             }
-            if let Some(c) = self.t.consts.iter().find(|c| c.key == *n) {
+            let local_const = self.t.file_defs.get(&self.cur_file).map(|d| d.consts.contains(n)).unwrap_or(false);
+            if local_const && !self.t.consts.iter().any(|c| c.key == *n && c.file == self.cur_file) {
+                return Err(unsupported(at, &format!("`{}`: this file defines its own constant of that name, which is not configured", n)));
+            }
+            if let Some(c) = self.t.consts.iter().find(|c| c.key == *n && (!local_const || c.file == self.cur_file)) {
                 let c = c.clone();
                 let ma = self.mvar_args(&c.mvars, env, at)?;
                 return Ok(Val { s: app(&c.coq, &ma), ty: c.ty.clone() });
@@ -556,7 +621,22 @@ impl<'a> Tr<'a> {
                 },
             }
         }
-        if s.fields.len() > ftys.len() {
+        // `field: PhantomData` of a PhantomData field carries no data
+        let mut phantoms = 0;
+        if let Ty::Adt(n) = &ty {
+            if let Some(si) = self.t.struct_info(n) {
+                for f in si.fields.iter().filter(|f| is_phantom(&f.ty)) {
+                    let fv = s.fields.iter().find(|x| matches!(&x.member, Member::Named(i) if *i == f.name));
+                    match fv {
+                        Some(x) if matches!(strip_parens(&x.expr), Expr::Path(p) if p.path.segments.last().map(|s| s.ident == "PhantomData").unwrap_or(false)) => phantoms += 1,
+                        Some(_) => return Err(unsupported(at, &format!("field `{}` (PhantomData) initialised with something else than `PhantomData`", f.name))),
+                        None if rest.is_some() => {}
+                        None => return Err(unsupported(at, &format!("field `{}` missing in struct literal", f.name))),
+                    }
+                }
+            }
+        }
+        if s.fields.len() > ftys.len() + phantoms {
             return Err(unsupported(at, "unknown field in struct literal"));
         }
         Ok(Val { s: app(&ctor, &args), ty })
